@@ -61,6 +61,14 @@ pub fn check_hash(c: &HashCase, st: &mut Stats) -> Result<(), Fail> {
     if a.link == Link::Null {
         a.link = Link::Ether;
     }
+    // a seventh of the cases: both endpoints on one host (only the ports tell the directions apart)
+    if c.workers % 7 == 3 && a.tcp.sport != a.tcp.dport {
+        match &mut a.ip {
+            Ip::V4(i) => i.dst = i.src,
+            Ip::V6(i) => i.dst = i.src,
+        }
+        st.class("same-host-endpoints");
+    }
     let b_same = with_identity(&a, &c.b, false);
     let b_rev = with_identity(&a, &c.b, true);
     let mut fa = a.frame();
@@ -182,6 +190,9 @@ pub fn check_acct(c: &AcctCase, st: &mut Stats) -> Result<(), Fail> {
     let queue = [0usize, 1, 2, 8, 1024][(c.queue_sel % 5) as usize];
     let cfg = PoolCfg { workers, queue, batch: 1 + (c.batch % 64) as usize, timeout_ms: 1 + (c.timeout_ms % 10) as u64, dispatchers: 1 + (c.dispatchers % 4) as usize, perturb: Some(c.perturb), max_sleep_us: 300 };
     let run = run_pool(kind, &frames, &cfg, None, None).map_err(|e| fail!("pool:new", "{e}"))?;
+    if let Some(p) = &run.worker_panic {
+        return Err(Fail::new(format!("{:?}:worker-{}", kind, crate::engine::panic_key(p)), format!("a worker thread panicked: {p}")));
+    }
     if run.drain_timeout {
         st.class("drain-timeout(inconclusive)");
         st.discards += 1;
